@@ -1132,7 +1132,10 @@ class Explorer(object):
           m = s.model()
           got = True
         s.pop()
-    exact = got
+    # integer and boolean inputs are always exact; a real input is exact when
+    # its value is a dyadic rational (checked below), whether or not the
+    # dyadic search above succeeded
+    exact = True
     if not got:
       if extra is not None:
         s.push()
@@ -1156,9 +1159,12 @@ class Explorer(object):
           v = v.approx(20)
         fr = Fraction(v.numerator_as_long(), v.denominator_as_long())
         vals[name] = [fr.numerator, fr.denominator]
-        d = fr.denominator
-        if d & (d - 1):
-          exact = False
+        try:
+          representable = Fraction(float(fr)) == fr
+        except OverflowError:
+          representable = False
+        if not representable:
+          exact = False  # the double the real stack gets is not this value
     return vals, exact
 
   def check(self, cond, label):
